@@ -30,9 +30,27 @@ pub struct Sc {
     pub pattern: String,
     pub replicas: Vec<Vec<Delivery>>,
     pub merges: Vec<Merge>,
+    /// a second compiled pattern that stays alive and is consulted in turn with
+    /// the one under test (every merge step first asks it about both
+    /// candidates); `clone_mode` says what happened to the pattern under test
+    /// before: 0 nothing, 1 cloned and the original dropped, 2 cloned and the
+    /// clone dropped, 3 cloned and both kept
+    #[serde(default)]
+    pub twin: Option<TwinPattern>,
+}
+
+#[derive(Clone, Debug, Serialize, Deserialize)]
+pub struct TwinPattern {
+    pub pattern: String,
+    pub clone_mode: u8,
 }
 
 pub struct C06;
+
+thread_local! {
+    /// the second live pattern of the run being executed on this thread (harness state, set and cleared by execute)
+    static TWIN: std::cell::RefCell<Option<Pattern>> = const { std::cell::RefCell::new(None) };
+}
 
 const BASES: [&str; 12] = ["foo", "bar", "foo-bar", "fo", "baz", "f", "fox-bar", "fxo", "ber", "ab", "ad", "bar-bar"];
 const VERSIONS: [&str; 112] = [
@@ -508,6 +526,33 @@ fn merge_step(
     what: &str,
     deferred: &mut Option<Violation>,
 ) -> Result<Option<String>, Violation> {
+    // the other live pattern is asked first (its answers are judged by the same model)
+    let twin_verdict: Option<Violation> = TWIN.with(|t| {
+        if let Some(tp) = t.borrow().as_ref() {
+            for n in [a, b] {
+                let m = tp.matches(n);
+                if let Some(want) = model_matches(tp.pattern(), n) {
+                    if m != want {
+                        return Some(Violation::new(
+                            "matches-differs-from-model",
+                            format!(
+                                "{}: a second live pattern {:?} {} {:?} but by its definition it {}",
+                                what,
+                                tp.pattern(),
+                                if m { "matches" } else { "does not match" },
+                                n,
+                                if want { "does" } else { "does not" }
+                            ),
+                        ));
+                    }
+                }
+            }
+        }
+        None
+    });
+    if let Some(v) = twin_verdict {
+        return Err(v);
+    }
     let r = metered!(ctx, a.len() + b.len() + 64, pat.best_match(a, b));
     let ma = pat.matches(a);
     let mb = pat.matches(b);
@@ -710,10 +755,32 @@ impl Property for C06 {
                 from_first: rng.chance(1, 2),
             });
         }
+        let twin = if rng.chance(1, 3) {
+            let tp = match rng.below(3) {
+                // the same pattern with the case of its first letter flipped: another pattern
+                0 => {
+                    let mut c: Vec<char> = pattern.chars().collect();
+                    if let Some(i) = c.iter().position(|ch| ch.is_ascii_alphabetic()) {
+                        c[i] = if c[i].is_ascii_lowercase() { c[i].to_ascii_uppercase() } else { c[i].to_ascii_lowercase() };
+                    }
+                    c.into_iter().collect()
+                }
+                // the same base, another bound
+                1 => format!("foo<{}", rng.pick(&VERSIONS)),
+                _ => gen_pattern(rng),
+            };
+            Some(TwinPattern {
+                pattern: tp,
+                clone_mode: rng.below(4) as u8,
+            })
+        } else {
+            None
+        };
         Sc {
             pattern,
             replicas,
             merges,
+            twin,
         }
     }
 
@@ -722,6 +789,30 @@ impl Property for C06 {
             Ok(p) => p,
             Err(_) => return Ok(()), // not a valid pattern: nothing to reduce
         };
+        let mut kept: Vec<Pattern> = Vec::new();
+        let pat = match sc.twin.as_ref().map(|t| t.clone_mode) {
+            Some(1) => {
+                let c = pat.clone();
+                drop(pat);
+                c
+            }
+            Some(2) => {
+                let c = pat.clone();
+                drop(c);
+                pat
+            }
+            Some(3) => {
+                kept.push(pat.clone());
+                pat
+            }
+            _ => pat,
+        };
+        // compiled after the clone / drop above, alive until the end of the run
+        let twin_pat: Option<Pattern> = sc.twin.as_ref().and_then(|t| Pattern::new(&t.pattern).ok());
+        if twin_pat.is_some() {
+            ctx.fault("interleaved_objects");
+        }
+        TWIN.with(|t| *t.borrow_mut() = twin_pat);
         let mut state: Vec<Option<String>> = vec![None; sc.replicas.len()];
         let mut seen_all: Vec<&str> = Vec::new();
         let mut deferred: Option<Violation> = None;
@@ -824,6 +915,8 @@ impl Property for C06 {
                 }
             }
         }
+        TWIN.with(|t| *t.borrow_mut() = None);
+        drop(kept);
         match deferred {
             Some(v) => Err(v),
             None => Ok(()),
@@ -848,6 +941,9 @@ impl Property for C06 {
         for m in shrink_vec(&sc.merges) {
             push!(Sc { merges: m, ..sc.clone() });
         }
+        if sc.twin.is_some() {
+            push!(Sc { twin: None, ..sc.clone() });
+        }
         if sc.replicas.len() > 1 {
             // collapse into one replica
             let all: Vec<Delivery> = sc.replicas.iter().flatten().cloned().collect();
@@ -855,6 +951,7 @@ impl Property for C06 {
                 pattern: sc.pattern.clone(),
                 replicas: vec![all],
                 merges: vec![],
+                twin: sc.twin.clone(),
             });
         }
         for (ri, r) in sc.replicas.iter().enumerate() {
